@@ -3,6 +3,7 @@ CONSTANTS
  Family = "pattern"
  MaxMid = 11
  MaxTiny = 0
+ CarryTail = 1
  CarryLens = {}
 INIT Init
 NEXT Next
